@@ -2,15 +2,20 @@
 """Harness for C08 (irregular 3D surveys).
 
 Per generated irregular SEG-Y (segyio, hz.mk_segy with a `present` mask) converted with the real SegyConverter:
+  CLASSIFICATION: D27 guard = the real segyio reports the file unstructured (else the converter does not take the irregular
+    route: known finding D27, the harness confirms it still reproduces and checks only the model of the route); D20 guard = no
+    source trace has inline number 0 (else trace/header identity fails: known finding D20, everything else still checked).
   ORACLE (segyio / numpy / zfpy only, never the Coq model):
     * reported ilines / xlines / tracecount / structured / n_ilines / n_xlines
     * every volume-style read (volume, every inline, crossline, z-slice, sub-volumes, every correlated and anticorrelated
       diagonal) bitwise = the ZFP fixed-rate image (whole-array zfpy compress/decompress at the file's rate) of the
       zero-filled grid zero-extended to the padded shape, restricted to the request
-    * get_tracefield_values(f) = the grid of the source values with zeros at holes, for every stored field
+    * get_tracefield_values(f) = the grid of the source values with zeros at holes, for each of the 89 fields (fields kept
+      as constants need the D20 guard; under heuristic detection only the fields that mode represents faithfully)
     * get_trace(i) bitwise = that image at the grid position of source trace i; gen_trace_header(i) = source header i
       (all 89 fields)                       -- guarded by D20 (no inline number 0 in the source)
   CORRESPONDENCE (the Coq model Model/Irregular.v evaluated by coqc on the same survey, against the REAL objects):
+    * ev_route     vs the route the real SegyConverter takes and the geometry the real segyio infers
     * ev_geometry  vs utils.InferredGeometry3d(traces_ref) built as conversion.infer_geometry does, and vs bytes 8..40, 60, 68
     * ev_axes      vs SgzReader.ilines / xlines
     * ev_footer    vs the raw footer arrays of the file (inline-number array and one other stored field)
@@ -117,12 +122,15 @@ def gen_cases(rng, tier, search):
     sizes = [(2, 2), (2, 3), (3, 2), (3, 3), (2, 9), (9, 2), (4, 4), (4, 5), (5, 4), (5, 5), (5, 8), (8, 5), (7, 9), (9, 7),
              (8, 8), (9, 9), (6, 3), (3, 6)]
     if tier == 'quick' and not search:
-        per_size = 3
+        per_size = 8
     else:
         per_size = 10 ** 6
     k = 0
     for (n_il, n_xl) in sizes:
         pats = patterns(n_il, n_xl, rng)
+        if per_size > 100:
+            for _ in range(3):          # thorough / search: more random hole sets per size
+                pats += [q for q in patterns(n_il, n_xl, rng) if q[0].startswith('random')]
         if len(pats) > per_size:
             # rotate through the pattern kinds so that every kind appears over the sizes
             pats = [pats[(k + j * 5) % len(pats)] for j in range(per_size)]
@@ -131,7 +139,7 @@ def gen_cases(rng, tier, search):
             xl0, xls = axis_params(rng, n_xl, ils, zero_prob=0.25)
             bpv, bs = LAYOUTS[k % len(LAYOUTS)] if k % 3 else LAYOUTS[0]
             cases.append(dict(n_il=n_il, n_xl=n_xl, pattern=name, present=[''.join('1' if v else '0' for v in row) for row in p],
-                              il0=il0, ils=ils, xl0=xl0, xls=xls, ns=rng.choice([1, 2, 4, 5, 7, 8, 9, 13]), bpv=bpv, bs=bs,
+                              il0=il0, ils=ils, xl0=xl0, xls=xls, ns=rng.choice([2, 3, 4, 5, 7, 8, 9, 13]), bpv=bpv, bs=bs,
                               mode=MODES[k % 3], hseed=rng.randrange(10 ** 6)))
             k += 1
     # the recorded D20 witness (Props/C08.v C08_mask_refuted) and a zero-crossing inline axis with a full middle
@@ -158,6 +166,8 @@ def model_outcome(v):
 
 
 TERMS = []      # (term, callback(parsed outcome))
+N_ORACLE = [0]
+LISTED = set()
 
 
 def want(term, cb, raw=False):
@@ -171,7 +181,22 @@ def run_case(c):
     xl = [c['xl0'] + x * c['xls'] for x in range(n_xl)]
     inp = dict(c)
 
+    per_case = {'oracle': 0}
+
     def bad(kind, what, detail, key=None):
+        # Result keeps 50 violations: at most 3 alarms per case and 34 in all from the oracle, so that the correspondence
+        # (evaluated in one batch at the end) is never crowded out; suppressed ones are counted
+        if key is not None:
+            R.count(f'known_finding_cases {key}')
+            if key in LISTED:
+                return            # one witness per known finding is listed, the rest are counted
+            LISTED.add(key)
+        if kind == 'oracle' and key is None:
+            per_case['oracle'] += 1
+            N_ORACLE[0] += 1
+            if per_case['oracle'] > 3 or N_ORACLE[0] > 34:
+                R.count('alarms_not_listed')
+                return
         R.violation(kind, dict(inp, check=what), detail, finding_key=key)
     hr = random.Random(c['hseed'])
     data = rnd_cube(hr, (n_il, n_xl, ns))
@@ -358,16 +383,22 @@ def run_case(c):
     if 189 not in stored:
         bad('oracle', 'stored fields', f'inline-number array not stored in mode {c["mode"]}: {stored}')
         return
-    # ---- tracefield values: fresh reader (D18)
+    # ---- tracefield values: fresh reader (D18).  Stored arrays: no guard needed.  Fields kept as a constant in the
+    # header template (heuristic detection; D30 fix) are zeroed outside the mask: these need the D20 guard.
     with SgzReader(sgz) as r2:
-        for f in [f for f in stored if f in faithful]:
+        nread = 0
+        for f in ALL_FIELDS:
+            if f not in faithful or (f not in stored and not guard):
+                continue
             exp = np.zeros((n_il, n_xl), dtype=np.int64)
             for t, (i, x) in enumerate(idx):
                 exp[i, x] = src_hd[t][f]
             got = r2.get_tracefield_values(f)
+            nread += 1
             if got.shape != exp.shape or not np.array_equal(got.astype(np.int64), exp):
-                bad('oracle', f'get_tracefield_values({f})', f'not the grid with zeros at holes: got {got.tolist()} expected {exp.tolist()}')
-        R.count('tracefield_reads', len(stored))
+                bad('oracle', f'get_tracefield_values({f})', f'{"stored" if f in stored else "constant"} field: not the grid with zeros at holes: '
+                    f'got {got.tolist()} expected {exp.tolist()}')
+        R.count('tracefield_reads', nread)
     nontriv = (n < n_il * n_xl)
     R.case(canon(c), nontrivial=nontriv, sample={k: c[k] for k in ('n_il', 'n_xl', 'pattern', 'il0', 'ils', 'xl0', 'xls', 'ns', 'bpv', 'bs', 'mode')})
     if a.no_model:
